@@ -385,7 +385,7 @@ def c13_jobs(tier, seed):
 
 def tree_jobs(props):
     def f(tier, seed):
-        jobs = []
+        jobs = [J('tv_trees', 'jobs.streams:tv_trees', dict(n=60 if tier == 'quick' else 300, seed=seed), timeout=600)]
         for t in TREES_QUICK:
             jobs.append(J('tree:' + t[0], 'jobs.streams:tree_job', dict(tree=t[1], props=props, alphabet=t[2] if len(t) > 2 else 'q'), timeout=420))
         if tier == 'thorough':
